@@ -142,7 +142,15 @@ def run_batch(prop, tier, verif_seed, runs, workers, per_run_timeout, wall_cap, 
                         herr.append(f'worker failure: {type(e).__name__}: {e}')
                 break
     finally:
+        procs = list(getattr(ex, '_processes', {}).values())
         ex.shutdown(wait=False, cancel_futures=True)
+        if herr:
+            # a worker is stuck or dead: do not let interpreter shutdown wait for it
+            for pr in procs:
+                try:
+                    pr.kill()
+                except Exception:
+                    pass
     results.sort(key=lambda r: r['index'])
     for r in results:
         if r.get('harness_error'):
